@@ -81,6 +81,12 @@ theorem ksorted_foldl : ∀ (ups : List (Nat × Int)) (c : CSet), KSorted c → 
   | u :: ups, c, h => ksorted_foldl ups _ (ksorted_applyOne c u h)
 
 
+/-- the pending applications: distinct operators and keys, none of them a validator's, no tokens -/
+structure PendOk (s : App) : Prop where
+  ops : (s.pending.map (·.op)).Nodup
+  keys : (s.pending.map (·.key)).Nodup
+  fresh : ∀ p ∈ s.pending, s.getVal p.op = none ∧ (∀ v ∈ s.vals, v.key ≠ p.key) ∧ p.tokens = 0
+
 /-- the state during a block; `s.updated` = the validators re-weighted so far in this block -/
 structure M (s : App) (c : CSet) : Prop where
   sorted : SortedOps s.vals
@@ -88,12 +94,11 @@ structure M (s : App) (c : CSet) : Prop where
   live : ∀ v ∈ s.vals, v.status = .bonded ∧ v.jailed = false ∧ powerOf v.tokens > 0 ∧ v.shares ≠ 0
   nonempty : s.vals ≠ []
   ubq : s.ubq = []
-  pending : s.pending = []
+  pend : PendOk s
   last : ∀ op v, s.getVal op = some v → alookup op s.last = some (cur v)
   lastOnly : ∀ op p, alookup op s.last = some p → (s.getVal op).isSome = true
   lastSorted : KSorted s.last
   cometCur : ∀ v ∈ s.vals, v.op ∉ s.updated → alookup v.key c = some (cur v)
-  cometHas : ∀ v ∈ s.vals, alookup v.key c ≠ none
   cometKnown : ∀ k p, alookup k c = some p → ∃ v ∈ s.vals, v.key = k
   cSorted : KSorted c
   cNonneg : ∀ e ∈ c, 0 ≤ e.2
@@ -106,6 +111,7 @@ structure M (s : App) (c : CSet) : Prop where
   cons : ∀ v ∈ s.vals, s.valByKey v.key = some v
   updSorted : s.updated.Pairwise (· < ·)
   updCur : ∀ op ∈ s.updated, ∃ v, s.getVal op = some v ∧ (powerOf v.tokens, op) ∈ s.index
+  winOk : 0 ≤ s.window - s.minSigned
 
 theorem sorted_op_inj : ∀ (l : List Val), SortedOps l → ∀ x ∈ l, ∀ y ∈ l, x.op = y.op → x = y
   | [], _, x, hx, _, _, _ => by cases hx
@@ -360,7 +366,7 @@ theorem endBlock_G (s : App) (c : CSet) (m : M s c) (f : Fits s c) :
   have hc'eq := applyChangeSet_ok c c' ups hc
   have hcs : KSorted c' := by rw [hc'eq]; exact ksorted_foldl ups c m.cSorted
   exact {
-    sorted := m.sorted, keys := m.keys, live := m.live, nonempty := m.nonempty, ubq := m.ubq, pending := m.pending
+    sorted := m.sorted, keys := m.keys, live := m.live, nonempty := m.nonempty, ubq := m.ubq, pend := ⟨m.pend.ops, m.pend.keys, m.pend.fresh⟩
     last := (by intro op v hv; rw [hget] at hv; exact hlast op v hv)
     lastOnly := (by
       intro op p hl
@@ -368,7 +374,6 @@ theorem endBlock_G (s : App) (c : CSet) (m : M s c) (f : Fits s c) :
       rw [hv]; rfl)
     lastSorted := hLs
     cometCur := (fun v hv _ => hallCur v hv)
-    cometHas := (fun v hv => by rw [hallCur v hv]; simp)
     cometKnown := (by
       intro k p hkp
       obtain ⟨v, hv, _, _, hk, _⟩ := (hag k p).mp hkp
@@ -384,7 +389,7 @@ theorem endBlock_G (s : App) (c : CSet) (m : M s c) (f : Fits s c) :
       simp only [lastPower, this, Option.getD_some] at hp2
       rw [← hp2]; unfold cur; omega)
     idxEx := m.idxEx, idxNodup := m.idxNodup, occ1 := m.occ1, occ2 := m.occ2, unbond := m.unbond
-    infos := m.infos, cons := m.cons, updSorted := m.updSorted, updCur := m.updCur
+    infos := m.infos, cons := m.cons, updSorted := m.updSorted, updCur := m.updCur, winOk := m.winOk
     allCur := hallCur
     totalOk := ⟨hT0, hT1⟩ }
 
@@ -459,11 +464,11 @@ theorem slashingBegin_present (s0 : App) (c : CSet) (m0 : M s0 c) : ∀ (votes :
 theorem M_frame (s : App) (c : CSet) (m : M s c) (I : List (Nat × SignInfo)) (B : List (Nat × List Nat)) (h t : Int)
     (hI : ∀ v ∈ s.vals, ∃ i, alookup v.key I = some i ∧ i.missed ≤ s.window - s.minSigned) :
     M { s with infos := I, bitmap := B, height := h, time := t } c :=
-  { sorted := m.sorted, keys := m.keys, live := m.live, nonempty := m.nonempty, ubq := m.ubq, pending := m.pending
-    last := m.last, lastOnly := m.lastOnly, lastSorted := m.lastSorted, cometCur := m.cometCur, cometHas := m.cometHas
+  { sorted := m.sorted, keys := m.keys, live := m.live, nonempty := m.nonempty, ubq := m.ubq, pend := ⟨m.pend.ops, m.pend.keys, m.pend.fresh⟩
+    last := m.last, lastOnly := m.lastOnly, lastSorted := m.lastSorted, cometCur := m.cometCur
     cometKnown := m.cometKnown, cSorted := m.cSorted, cNonneg := m.cNonneg, idxEx := m.idxEx, idxNodup := m.idxNodup
     occ1 := m.occ1, occ2 := m.occ2, unbond := m.unbond, infos := hI, cons := m.cons
-    updSorted := m.updSorted, updCur := m.updCur }
+    updSorted := m.updSorted, updCur := m.updCur, winOk := m.winOk }
 
 /-! ### PoA's BeginBlocker: the entries written by last block's SetPowers are pruned -/
 
@@ -563,13 +568,13 @@ theorem poaBegin_G (lf : LimitFacts) (s : App) (c : CSet) (g : G s c) :
   have mk : ∀ (cch : Nat) (ab : Nat), G { s with index := idx', updated := [], cached := cch, absCh := ab } c := by
     intro cch ab
     exact {
-      sorted := m.sorted, keys := m.keys, live := m.live, nonempty := m.nonempty, ubq := m.ubq, pending := m.pending
+      sorted := m.sorted, keys := m.keys, live := m.live, nonempty := m.nonempty, ubq := m.ubq, pend := ⟨m.pend.ops, m.pend.keys, m.pend.fresh⟩
       last := m.last, lastOnly := m.lastOnly, lastSorted := m.lastSorted
-      cometCur := (fun v hv _ => g.allCur v hv), cometHas := m.cometHas, cometKnown := m.cometKnown, cSorted := m.cSorted, cNonneg := m.cNonneg
+      cometCur := (fun v hv _ => g.allCur v hv), cometKnown := m.cometKnown, cSorted := m.cSorted, cNonneg := m.cNonneg
       idxEx := (fun e he => m.idxEx e (h3 e he)), idxNodup := h2
       occ1 := (fun v hv _ => hocc v hv), occ2 := (fun v _ hu => by cases hu)
       unbond := m.unbond, infos := m.infos, cons := m.cons
-      updSorted := List.Pairwise.nil, updCur := (fun op hop => by cases hop)
+      updSorted := List.Pairwise.nil, updCur := (fun op hop => by cases hop), winOk := m.winOk
       allCur := g.allCur, totalOk := g.totalOk }
   have hprune : pruneUpdated s.updated s = .ok { s with index := idx' } := h1
   unfold poaBegin
@@ -596,16 +601,16 @@ theorem ubp (x : App) : ∃ B S, x.updateBondedPool = { x with bonded := B, supp
 /-- the record SetPower writes -/
 def reweigh (v : Val) (p : Nat) : Val := { v with tokens := p, shares := (p : Int) * E18, status := .bonded }
 
-theorem setPower_shape (s s' : App) (op p : Nat) (u : Bool) (v : Val)
-    (hpend : s.pending = []) (hv : s.getVal op = some v) (hj : v.jailed = false)
-    (h : setPowerMsg genLimitFacts s .admin (some op) p u = .ok s') :
+theorem setPower_shape (s0 s s' : App) (op p : Nat) (u : Bool) (v : Val)
+    (hadm : s0.admitIfPending (some op) = s) (hv : s.getVal op = some v) (hj : v.jailed = false)
+    (h : setPowerMsg genLimitFacts s0 .admin (some op) p u = .ok s') :
     1000000 ≤ p ∧ p < 9223372036854775808 ∧ ((p / PR : Nat) : Int) ≠ s.lastPower op ∧
     ∃ D LT AB B S,
       s' = { s with vals := insertVal (reweigh v p) s.vals, dels := D,
                     last := ainsert op ((p / PR : Nat) : Int) (ainsert op ((p / PR : Nat) : Int) s.last),
                     lastTotal := LT, index := idxInsert (p / PR, op) s.index, updated := sinsert op s.updated,
                     absCh := AB, bonded := B, supply := S } := by
-  obtain ⟨hlo, hhi, _⟩ := Props.C14.c14_exact s s' op p u h
+  obtain ⟨hlo, hhi, _⟩ := Props.C14.c14_exact s0 s' op p u h
   have hf := Props.C14.facts_bounds
   have hlo' : ¬ p < 1000000 := by omega
   have hhi' : ¬ p > 9223372036854775807 := by omega
@@ -614,7 +619,6 @@ theorem setPower_shape (s s' : App) (op p : Nat) (u : Bool) (v : Val)
   simp only [beq_self_eq_true, Bool.not_true, Bool.false_eq_true, ↓reduceIte, Option.isNone_some,
     decide_false, Bool.and_false, setPowerCore] at h
   rw [toInt64_small p (by omega)] at h
-  have hadm : s.admitIfPending (some op) = s := by simp [admitIfPending, pendingFind, hpend]
   rw [hadm] at h
   simp only [setPOAPower, hv] at h
   cases hr : s.setPOAPowerVal v (p : Int) with
@@ -661,20 +665,19 @@ theorem setPower_shape (s s' : App) (op p : Nat) (u : Bool) (v : Val)
 
 /-! ### a successful SetPower that fires neither D1 nor D3 -/
 
-theorem setPower_target (s s' : App) (op p : Nat) (u : Bool) (hpend : s.pending = [])
-    (h : setPowerMsg genLimitFacts s .admin (some op) p u = .ok s') : ∃ v, s.getVal op = some v := by
+theorem setPower_target (s0 s s' : App) (op p : Nat) (u : Bool) (hadm : s0.admitIfPending (some op) = s)
+    (h : setPowerMsg genLimitFacts s0 .admin (some op) p u = .ok s') : ∃ v, s.getVal op = some v := by
   cases hv : s.getVal op with
   | some v => exact ⟨v, rfl⟩
   | none =>
     exfalso
-    obtain ⟨hlo, hhi, _⟩ := Props.C14.c14_exact s s' op p u h
+    obtain ⟨hlo, hhi, _⟩ := Props.C14.c14_exact s0 s' op p u h
     have hf := Props.C14.facts_bounds
     have hlo' : ¬ p < 1000000 := by omega
     have hhi' : ¬ p > 9223372036854775807 := by omega
     simp only [setPowerMsg, isAdmin, validateSetPower, hf.1, hf.2, hlo', hhi'] at h
     simp only [beq_self_eq_true, Bool.not_true, Bool.false_eq_true, ↓reduceIte, Option.isNone_some,
       decide_false, Bool.and_false, setPowerCore] at h
-    have hadm : s.admitIfPending (some op) = s := by simp [admitIfPending, pendingFind, hpend]
     rw [hadm] at h
     simp [setPOAPower, hv] at h
 
@@ -758,14 +761,15 @@ theorem occ_idxInsert (e : Nat × Nat) (l : List (Nat × Nat)) (op : Nat) (he : 
 
 /-- **a SetPower that succeeds, on a validator not yet re-weighted in this block (no D3), to a power at which it owns no
     index entry (no D1), preserves `M`** -/
-theorem M_setPower (s s' : App) (c : CSet) (op p : Nat) (u : Bool) (m : M s c)
-    (h : setPowerMsg genLimitFacts s .admin (some op) p u = .ok s')
+theorem M_setPower_existing (s s' : App) (c : CSet) (op p : Nat) (u : Bool) (m : M s c)
+    (h : setPowerMsg genLimitFacts s .admin (some op) p u = .ok s') (hf : s.pendingFind op = none)
     (hd3 : op ∉ s.updated) (hd1 : (p / PR, op) ∉ s.index) : M s' c := by
-  obtain ⟨v, hv⟩ := setPower_target s s' op p u m.pending h
+  have hadm : s.admitIfPending (some op) = s := by simp [admitIfPending, hf]
+  obtain ⟨v, hv⟩ := setPower_target s s s' op p u hadm h
   have hvm := mem_of_getVal s op v hv
   have hvop := getVal_op _ _ _ hv
   have hlv := m.live v hvm
-  obtain ⟨hlo, hhi, hne, D, LT, AB, B, S, hs'⟩ := setPower_shape s s' op p u v m.pending hv hlv.2.1 h
+  obtain ⟨hlo, hhi, hne, D, LT, AB, B, S, hs'⟩ := setPower_shape s s s' op p u v hadm hv hlv.2.1 h
   have hvals : s'.vals = insertVal (reweigh v p) s.vals := by rw [hs']
   have hlastE : s'.last = ainsert op ((p / PR : Nat) : Int) (ainsert op ((p / PR : Nat) : Int) s.last) := by rw [hs']
   have hindex : s'.index = idxInsert (p / PR, op) s.index := by rw [hs']
@@ -822,7 +826,18 @@ theorem M_setPower (s s' : App) (c : CSet) (op p : Nat) (u : Bool) (m : M s c)
       · exact m.live x o)
     nonempty := (by intro e; have := mem_insertVal_self (reweigh v p) s.vals; rw [← hvals, e] at this; cases this)
     ubq := (by rw [hubq]; exact m.ubq)
-    pending := (by rw [hpendE]; exact m.pending)
+    pend := (by
+      refine ⟨by rw [hpendE]; exact m.pend.ops, by rw [hpendE]; exact m.pend.keys, ?_⟩
+      intro q hq
+      rw [hpendE] at hq
+      obtain ⟨f1, f2, f3⟩ := m.pend.fresh q hq
+      have hqop : q.op ≠ op := by intro e; rw [e, hv] at f1; cases f1
+      refine ⟨by rw [hget, hgne q.op hqop]; exact f1, ?_, f3⟩
+      intro x hx
+      rw [hvals] at hx
+      rcases hmemNew x hx with e | ⟨o, _⟩
+      · rw [e]; exact f2 v hvm
+      · exact f2 x o)
     last := (by
       intro o x hx
       rw [hget] at hx
@@ -850,12 +865,6 @@ theorem M_setPower (s s' : App) (c : CSet) (op p : Nat) (u : Bool) (m : M s c)
       rcases hmemNew x hx with e | ⟨o, n⟩
       · exfalso; apply hnu'; left; rw [e]; exact hvop
       · exact m.cometCur x o (fun hh => hnu' (Or.inr hh)))
-    cometHas := (by
-      intro x hx
-      rw [hvals] at hx
-      rcases hmemNew x hx with e | ⟨o, _⟩
-      · rw [e]; exact m.cometHas v hvm
-      · exact m.cometHas x o)
     cometKnown := (by
       intro k q hkq
       obtain ⟨x, hx, hxk⟩ := m.cometKnown k q hkq
@@ -956,7 +965,433 @@ theorem M_setPower (s s' : App) (c : CSet) (op p : Nat) (u : Bool) (m : M s c)
       · have hne2 : o ≠ op := by intro e2; subst e2; exact hd3 e
         obtain ⟨x, hx, hxm⟩ := m.updCur o e
         refine ⟨x, by rw [hget, hgne o hne2]; exact hx, ?_⟩
-        rw [hindex, mem_idxInsert _ _ _ hd1]; exact Or.inr hxm) }
+        rw [hindex, mem_idxInsert _ _ _ hd1]; exact Or.inr hxm)
+    winOk := (by rw [hwinE.1, hwinE.2]; exact m.winOk) }
+
+/-! ### admission of a pending applicant by SetPower -/
+
+theorem insertVal_twice (v w : Val) (h : w.op = v.op) : ∀ l : List Val, insertVal w (insertVal v l) = insertVal w l
+  | [] => by simp [insertVal, h]
+  | x :: xs => by
+    by_cases h1 : x.op = v.op
+    · have h1' : x.op = w.op := by rw [h1, h]
+      have ha : insertVal v (x :: xs) = v :: xs := by simp [insertVal, h1]
+      have hb : insertVal w (x :: xs) = w :: xs := by simp [insertVal, h1']
+      have hc : insertVal w (v :: xs) = w :: xs := by simp [insertVal, h]
+      rw [ha, hb, hc]
+    · have h1' : ¬ x.op = w.op := by rw [h]; exact h1
+      by_cases h2 : v.op < x.op
+      · have h2' : w.op < x.op := by rw [h]; exact h2
+        have ha : insertVal v (x :: xs) = v :: x :: xs := by simp [insertVal, h1, h2]
+        have hb : insertVal w (x :: xs) = w :: x :: xs := by simp [insertVal, h1', h2']
+        have hc : insertVal w (v :: x :: xs) = w :: x :: xs := by simp [insertVal, h]
+        rw [ha, hb, hc]
+      · have h2' : ¬ w.op < x.op := by rw [h]; exact h2
+        have ha : insertVal v (x :: xs) = x :: insertVal v xs := by simp [insertVal, h1, h2]
+        have hb : insertVal w (x :: xs) = x :: insertVal w xs := by simp [insertVal, h1', h2']
+        have hc : insertVal w (x :: insertVal v xs) = x :: insertVal w (insertVal v xs) := by simp [insertVal, h1', h2']
+        rw [ha, hb, hc, insertVal_twice v w h xs]
+
+theorem mem_removeFirst (op : Nat) : ∀ (l : List Pending) (q : Pending), q ∈ removeFirst op l → q ∈ l
+  | [], _, h => by cases h
+  | p :: ps, q, h => by
+    unfold removeFirst at h
+    split at h
+    · simp [h]
+    · rcases List.mem_cons.mp h with e | e
+      · simp [e]
+      · simp [mem_removeFirst op ps q e]
+
+theorem removeFirst_sublist (op : Nat) : ∀ (l : List Pending), (removeFirst op l).Sublist l
+  | [] => List.Sublist.slnil
+  | p :: ps => by
+    unfold removeFirst
+    split
+    · exact List.sublist_cons_self _ _
+    · exact (removeFirst_sublist op ps).cons₂ _
+
+theorem removeFirst_op (op : Nat) : ∀ (l : List Pending), (l.map (·.op)).Nodup → ∀ q ∈ removeFirst op l, q.op ≠ op
+  | [], _, q, h => by cases h
+  | p :: ps, hn, q, h => by
+    have hn' : (p.op :: ps.map (·.op)).Nodup := by simpa using hn
+    have ⟨h1, h2⟩ := List.nodup_cons.mp hn'
+    unfold removeFirst at h
+    split at h
+    · rename_i he
+      intro e
+      apply h1
+      rw [he, ← e]
+      exact List.mem_map.mpr ⟨q, h, rfl⟩
+    · rename_i hne
+      rcases List.mem_cons.mp h with e | e
+      · rw [e]; exact hne
+      · exact removeFirst_op op ps h2 q e
+
+theorem pending_key_inj : ∀ (l : List Pending), (l.map (·.key)).Nodup → ∀ x ∈ l, ∀ y ∈ l, x.key = y.key → x = y
+  | [], _, x, hx, _, _, _ => by cases hx
+  | a :: l, hn, x, hx, y, hy, hxy => by
+    have hn' : (a.key :: l.map (·.key)).Nodup := by simpa using hn
+    have ⟨h1, h2⟩ := List.nodup_cons.mp hn'
+    rcases List.mem_cons.mp hx with ex | ex <;> rcases List.mem_cons.mp hy with ey | ey
+    · rw [ex, ey]
+    · subst ex; exact absurd (List.mem_map.mpr ⟨y, ey, hxy.symm⟩) h1
+    · subst ey; exact absurd (List.mem_map.mpr ⟨x, ex, hxy⟩) h1
+    · exact pending_key_inj l h2 x ex y ey hxy
+
+/-- the record `AcceptNewValidator` creates -/
+def newborn (p : Pending) : Val :=
+  { op := p.op, key := p.key, jailed := false, status := .unbonded, tokens := p.tokens, shares := 0, ubTime := tEpoch, ubHeight := 0, minSelf := p.minSelf }
+
+theorem acceptNew_fields (s : App) (p : Pending) :
+    (s.acceptNew p).vals = insertVal (newborn p) s.vals ∧ (s.acceptNew p).cons = ainsert p.key p.op s.cons ∧
+    (s.acceptNew p).index = idxInsert (powerOf p.tokens, p.op) s.index ∧ (s.acceptNew p).pending = removeFirst p.op s.pending ∧
+    (s.acceptNew p).infos = ainsert p.key { start := s.height, idx := 0, missed := 0, jailedUntil := s.time, tomb := false } s.infos ∧
+    (s.acceptNew p).last = s.last ∧ (s.acceptNew p).updated = s.updated ∧ (s.acceptNew p).ubq = s.ubq ∧
+    (s.acceptNew p).params = s.params ∧ (s.acceptNew p).window = s.window ∧ (s.acceptNew p).minSigned = s.minSigned := by
+  unfold acceptNew updateBondedPool
+  dsimp only
+  split <;> simp [setVal, setNewIdx, removePending, setInfo, newborn]
+
+theorem occ_zero_of_no_entry (op : Nat) : ∀ (l : List (Nat × Nat)), (∀ e ∈ l, e.2 ≠ op) → occ op l = 0
+  | [], _ => rfl
+  | x :: xs, h => by
+    rw [occ_cons, occ_zero_of_no_entry op xs (fun e he => h e (by simp [he]))]
+    have := h x (by simp)
+    simp [this]
+
+/-- **admission**: a successful SetPower whose target is a pending applicant preserves `M` — no side condition: the
+    applicant's operator and key are new, so neither D1 nor D3 can fire -/
+theorem M_setPower_admit (s s' : App) (c : CSet) (op P : Nat) (u : Bool) (m : M s c) (p : Pending)
+    (h : setPowerMsg genLimitFacts s .admin (some op) P u = .ok s') (hf : s.pendingFind op = some p) : M s' c := by
+  have hpm : p ∈ s.pending := List.mem_of_find?_eq_some hf
+  have hpop : p.op = op := by have := List.find?_some hf; simpa using this
+  obtain ⟨fr1, fr2, fr3⟩ := m.pend.fresh p hpm
+  have hadm : s.admitIfPending (some op) = s.acceptNew p := by simp [admitIfPending, hf]
+  obtain ⟨a1, a2, a3, a4, a5, a6, a7, a8, a9, a10, a11⟩ := acceptNew_fields s p
+  have hgA : (s.acceptNew p).getVal op = some (newborn p) := by
+    rw [getVal_congr _ (s.setVal (newborn p)) (by rw [a1]; rfl)]
+    have := getVal_setVal_self s (newborn p)
+    rw [show (newborn p).op = op from hpop] at this; exact this
+  obtain ⟨hlo, hhi, _, D, LT, AB, B, S, hs'⟩ := setPower_shape s (s.acceptNew p) s' op P u (newborn p) hadm hgA rfl h
+  -- the new record and the fields of the new state
+  have hwop : (reweigh (newborn p) P).op = op := hpop
+  have hvals : s'.vals = insertVal (reweigh (newborn p) P) s.vals := by
+    rw [hs']; simp only []; rw [a1]; exact insertVal_twice (newborn p) (reweigh (newborn p) P) rfl s.vals
+  have hlastE : s'.last = ainsert op ((P / PR : Nat) : Int) (ainsert op ((P / PR : Nat) : Int) s.last) := by rw [hs']; simp only []; rw [a6]
+  have hindex : s'.index = idxInsert (P / PR, op) (idxInsert (0, op) s.index) := by
+    rw [hs']; simp only []; rw [a3, fr3, hpop]; rfl
+  have hupd : s'.updated = sinsert op s.updated := by rw [hs']; simp only []; rw [a7]
+  have hubq : s'.ubq = s.ubq := by rw [hs']; simp only []; rw [a8]
+  have hpendE : s'.pending = removeFirst op s.pending := by rw [hs']; simp only []; rw [a4, hpop]
+  have hconsE : s'.cons = ainsert p.key op s.cons := by rw [hs']; simp only []; rw [a2, hpop]
+  have hinfosE : s'.infos = ainsert p.key { start := s.height, idx := 0, missed := 0, jailedUntil := s.time, tomb := false } s.infos := by rw [hs']; simp only []; rw [a5]
+  have hparamsE : s'.params = s.params := by rw [hs']; simp only []; rw [a9]
+  have hwinE : s'.window = s.window ∧ s'.minSigned = s.minSigned := by rw [hs']; simp only []; exact ⟨a10, a11⟩
+  clear hs'
+  have hget : ∀ o, s'.getVal o = (s.setVal (reweigh (newborn p) P)).getVal o := fun o => getVal_congr _ _ (by rw [hvals]; rfl) o
+  have hgself : (s.setVal (reweigh (newborn p) P)).getVal op = some (reweigh (newborn p) P) := by
+    have := getVal_setVal_self s (reweigh (newborn p) P); rw [hwop] at this; exact this
+  have hgne : ∀ o, o ≠ op → (s.setVal (reweigh (newborn p) P)).getVal o = s.getVal o :=
+    fun o ho => getVal_setVal_ne s (reweigh (newborn p) P) o (by rw [hwop]; exact ho)
+  have hfreshOp : ∀ x ∈ s.vals, x.op ≠ op := by
+    intro x hx e
+    have := mem_vals_getVal s m.sorted x hx
+    rw [e, ← hpop, fr1] at this; cases this
+  have hnoEntry : ∀ e ∈ s.index, e.2 ≠ op := by
+    intro e he eo
+    have := m.idxEx e he
+    rw [eo, ← hpop, fr1] at this; cases this
+  have hcurw : cur (reweigh (newborn p) P) = ((P / PR : Nat) : Int) := by simp [cur, reweigh, powerOf]
+  have hpos : P / PR > 0 := Nat.div_pos (by unfold PR; omega) (by decide)
+  have hposw : powerOf (reweigh (newborn p) P).tokens > 0 := by simp only [reweigh, powerOf]; exact hpos
+  have h0 : (0, op) ∉ s.index := fun hm => hnoEntry _ hm rfl
+  have h1 : (P / PR, op) ∉ idxInsert (0, op) s.index := by
+    intro hm
+    rw [mem_idxInsert _ _ _ h0] at hm
+    rcases hm with e | e
+    · injection e with e1 _; omega
+    · exact hnoEntry _ e rfl
+  have hmemNew : ∀ x, x ∈ insertVal (reweigh (newborn p) P) s.vals → x = reweigh (newborn p) P ∨ (x ∈ s.vals ∧ x.op ≠ op) := by
+    intro x hx
+    rcases mem_insertVal _ s.vals x hx with e | e
+    · exact Or.inl e
+    · exact Or.inr ⟨e, hfreshOp x e⟩
+  have hmemOld : ∀ x ∈ s.vals, x ∈ insertVal (reweigh (newborn p) P) s.vals :=
+    fun x hx => mem_insertVal_of_ne _ x s.vals hx (by rw [hwop]; exact hfreshOp x hx)
+  have hwkey : (reweigh (newborn p) P).key = p.key := rfl
+  exact {
+    sorted := (by rw [hvals]; exact sorted_insertVal _ _ m.sorted)
+    keys := (by
+      intro v1 h1' v2 h2' hk
+      rw [hvals] at h1' h2'
+      rcases hmemNew v1 h1' with e1 | ⟨o1, _⟩ <;> rcases hmemNew v2 h2' with e2 | ⟨o2, _⟩
+      · rw [e1, e2]
+      · exfalso; exact fr2 v2 o2 (by rw [← hk, e1]; rfl)
+      · exfalso; exact fr2 v1 o1 (by rw [hk, e2]; rfl)
+      · exact m.keys v1 o1 v2 o2 hk)
+    live := (by
+      intro x hx
+      rw [hvals] at hx
+      rcases hmemNew x hx with e | ⟨o, _⟩
+      · rw [e]
+        refine ⟨rfl, rfl, hposw, ?_⟩
+        simp only [reweigh]
+        have : (0 : Int) < (P : Int) := by omega
+        exact Int.ne_of_gt (Int.mul_pos this (by decide))
+      · exact m.live x o)
+    nonempty := (by intro e; have := mem_insertVal_self (reweigh (newborn p) P) s.vals; rw [← hvals, e] at this; cases this)
+    ubq := (by rw [hubq]; exact m.ubq)
+    pend := (by
+      refine ⟨?_, ?_, ?_⟩
+      · rw [hpendE]; exact m.pend.ops.sublist ((removeFirst_sublist op s.pending).map _)
+      · rw [hpendE]; exact m.pend.keys.sublist ((removeFirst_sublist op s.pending).map _)
+      · intro q hq
+        rw [hpendE] at hq
+        have hqm := mem_removeFirst op s.pending q hq
+        have hqop := removeFirst_op op s.pending m.pend.ops q hq
+        obtain ⟨f1, f2, f3⟩ := m.pend.fresh q hqm
+        refine ⟨by rw [hget, hgne q.op hqop]; exact f1, ?_, f3⟩
+        intro x hx
+        rw [hvals] at hx
+        rcases hmemNew x hx with e | ⟨o, _⟩
+        · rw [e, hwkey]
+          intro ek
+          -- two pending applications with the same key are the same application
+          have : p = q := pending_key_inj s.pending m.pend.keys p hpm q hqm ek
+          exact hqop (by rw [← this]; exact hpop)
+        · exact f2 x o)
+    last := (by
+      intro o x hx
+      rw [hget] at hx
+      by_cases ho : o = op
+      · subst ho
+        rw [hgself] at hx; injection hx with hx; subst hx
+        rw [hcurw, hlastE]; exact alookup_ainsert_self _ _ _
+      · rw [hgne o ho] at hx
+        rw [hlastE, alookup_ainsert_ne _ _ _ _ ho, alookup_ainsert_ne _ _ _ _ ho]
+        exact m.last o x hx)
+    lastOnly := (by
+      intro o q hq
+      rw [hget]
+      by_cases ho : o = op
+      · subst ho; rw [hgself]; rfl
+      · rw [hgne o ho]
+        rw [hlastE, alookup_ainsert_ne _ _ _ _ ho, alookup_ainsert_ne _ _ _ _ ho] at hq
+        exact m.lastOnly o q hq)
+    lastSorted := (by rw [hlastE]; exact ksorted_ainsert _ _ _ (ksorted_ainsert _ _ _ m.lastSorted))
+    cometCur := (by
+      intro x hx hnu
+      rw [hvals] at hx
+      rw [hupd, mem_sinsert] at hnu
+      rcases hmemNew x hx with e | ⟨o, n⟩
+      · exfalso; apply hnu; left; rw [e]; exact hwop
+      · exact m.cometCur x o (fun hh => hnu (Or.inr hh)))
+    cometKnown := (by
+      intro k q hkq
+      obtain ⟨x, hx, hxk⟩ := m.cometKnown k q hkq
+      exact ⟨x, by rw [hvals]; exact hmemOld x hx, hxk⟩)
+    cSorted := m.cSorted
+    cNonneg := m.cNonneg
+    idxEx := (by
+      intro e he
+      rw [hindex, mem_idxInsert _ _ _ h1, mem_idxInsert _ _ _ h0] at he
+      rw [hget]
+      rcases he with e1 | e1 | e1
+      · rw [e1]; show ((s.setVal (reweigh (newborn p) P)).getVal op).isSome = true; rw [hgself]; rfl
+      · rw [e1]; show ((s.setVal (reweigh (newborn p) P)).getVal op).isSome = true; rw [hgself]; rfl
+      · rw [hgne e.2 (hnoEntry e e1)]; exact m.idxEx e e1)
+    idxNodup := (by
+      rw [hindex, (idxInsert_perm _ _ h1).nodup_iff]
+      refine List.nodup_cons.mpr ⟨h1, ?_⟩
+      rw [(idxInsert_perm _ _ h0).nodup_iff]
+      exact List.nodup_cons.mpr ⟨h0, m.idxNodup⟩)
+    occ1 := (by
+      intro x hx hnu
+      rw [hvals] at hx
+      rw [hupd, mem_sinsert] at hnu
+      rcases hmemNew x hx with e | ⟨o, n⟩
+      · exfalso; apply hnu; left; rw [e]; exact hwop
+      · rw [hindex, occ_idxInsert _ _ _ h1, occ_idxInsert _ _ _ h0]
+        have : ¬ op = x.op := fun e => n e.symm
+        simp only [this, ↓reduceIte]
+        rw [m.occ1 x o (fun hh => hnu (Or.inr hh))])
+    occ2 := (by
+      intro x hx hu
+      rw [hvals] at hx
+      rw [hupd, mem_sinsert] at hu
+      rw [hindex, occ_idxInsert _ _ _ h1, occ_idxInsert _ _ _ h0]
+      rcases hmemNew x hx with e | ⟨o, n⟩
+      · have hxo : x.op = op := by rw [e]; exact hwop
+        rw [hxo]
+        simp only [↓reduceIte]
+        rw [occ_zero_of_no_entry op s.index hnoEntry]
+      · have : ¬ op = x.op := fun e => n e.symm
+        simp only [this, ↓reduceIte]
+        rcases hu with hh | hh
+        · exact absurd hh n
+        · rw [m.occ2 x o hh])
+    unbond := (by rw [hparamsE]; exact m.unbond)
+    infos := (by
+      intro x hx
+      rw [hvals] at hx
+      rw [hwinE.1, hwinE.2]
+      simp only [getInfo, hinfosE]
+      rcases hmemNew x hx with e | ⟨o, _⟩
+      · rw [e, hwkey]
+        exact ⟨_, alookup_ainsert_self _ _ _, m.winOk⟩
+      · rw [alookup_ainsert_ne _ _ _ _ (fr2 x o)]
+        exact m.infos x o)
+    cons := (by
+      intro x hx
+      rw [hvals] at hx
+      unfold valByKey
+      rw [hconsE]
+      rcases hmemNew x hx with e | ⟨o, n⟩
+      · rw [e, hwkey, alookup_ainsert_self]
+        simp only
+        rw [hget, hgself]
+      · rw [alookup_ainsert_ne _ _ _ _ (fr2 x o)]
+        have hc := m.cons x o
+        unfold valByKey at hc
+        cases hk : alookup x.key s.cons with
+        | none => rw [hk] at hc; cases hc
+        | some o1 =>
+          rw [hk] at hc
+          simp only at hc ⊢
+          have : o1 = x.op := by rw [← getVal_op _ _ _ hc]
+          rw [this, hget, hgne x.op n]
+          rw [this] at hc; exact hc)
+    updSorted := (by rw [hupd]; exact sorted_sinsert op s.updated m.updSorted)
+    updCur := (by
+      intro o ho
+      rw [hupd, mem_sinsert] at ho
+      rcases ho with e | e
+      · subst e
+        refine ⟨reweigh (newborn p) P, by rw [hget]; exact hgself, ?_⟩
+        rw [hindex]
+        have : powerOf (reweigh (newborn p) P).tokens = P / PR := rfl
+        rw [this]; exact mem_idxInsert_self _ _
+      · obtain ⟨x, hx, hxm⟩ := m.updCur o e
+        have hne2 : o ≠ op := by
+          intro e2
+          rw [e2, ← hpop, fr1] at hx; cases hx
+        refine ⟨x, by rw [hget, hgne o hne2]; exact hx, ?_⟩
+        rw [hindex, mem_idxInsert _ _ _ h1, mem_idxInsert _ _ _ h0]; exact Or.inr (Or.inr hxm))
+    winOk := (by rw [hwinE.1, hwinE.2]; exact m.winOk) }
+
+/-- **SetPower preserves `M`**: on an existing validator when it fires neither D3 nor D1; on a pending applicant always -/
+theorem M_setPower (s s' : App) (c : CSet) (op p : Nat) (u : Bool) (m : M s c)
+    (h : setPowerMsg genLimitFacts s .admin (some op) p u = .ok s')
+    (hq : s.pendingFind op = none → op ∉ s.updated ∧ (p / PR, op) ∉ s.index) : M s' c := by
+  cases hf : s.pendingFind op with
+  | none => exact M_setPower_existing s s' c op p u m h hf (hq hf).1 (hq hf).2
+  | some q => exact M_setPower_admit s s' c op p u m q h hf
+
+/-! ### applications: CreateValidator and RemovePending touch the pending list only -/
+
+theorem pendingClash_none' (op key : Nat) : ∀ (l : List Pending), pendingClash op key l = none → ∀ q ∈ l, q.op ≠ op ∧ q.key ≠ key
+  | [], _, q, hq => by cases hq
+  | a :: l, h, q, hq => by
+    unfold pendingClash at h
+    split at h
+    · cases h
+    · split at h
+      · cases h
+      · rename_i h1 h2
+        rcases List.mem_cons.mp hq with e | e
+        · rw [e]; exact ⟨h1, h2⟩
+        · exact pendingClash_none' op key l h q e
+
+theorem ubp_eq (x s' : App) (h : x.updateBondedPool = s') : ∃ B S, s' = { x with bonded := B, supply := S } := by
+  obtain ⟨B, S, e⟩ := ubp x
+  exact ⟨B, S, by rw [← h, e]⟩
+
+/-- `M` when only the pending list (and the pools, which `M` does not mention) changes -/
+theorem M_pending (s s' : App) (c : CSet) (m : M s c) (P : List Pending) (B S : Int)
+    (hs : s' = { s with pending := P, bonded := B, supply := S })
+    (hp : (P.map (·.op)).Nodup ∧ (P.map (·.key)).Nodup ∧ ∀ q ∈ P, s.getVal q.op = none ∧ (∀ v ∈ s.vals, v.key ≠ q.key) ∧ q.tokens = 0) :
+    M s' c := by
+  subst hs
+  exact {
+    sorted := m.sorted, keys := m.keys, live := m.live, nonempty := m.nonempty, ubq := m.ubq
+    pend := ⟨hp.1, hp.2.1, hp.2.2⟩
+    last := m.last, lastOnly := m.lastOnly, lastSorted := m.lastSorted, cometCur := m.cometCur
+    cometKnown := m.cometKnown, cSorted := m.cSorted, cNonneg := m.cNonneg, idxEx := m.idxEx, idxNodup := m.idxNodup
+    occ1 := m.occ1, occ2 := m.occ2, unbond := m.unbond, infos := m.infos, cons := m.cons
+    updSorted := m.updSorted, updCur := m.updCur, winOk := m.winOk }
+
+/-- **a successful CreateValidator preserves `M`**: the application joins the pending list; its operator and key are
+    new (the handler checked the validators and the pending list) -/
+theorem M_create (s s' : App) (c : CSet) (sg : Signer) (a : CreateArgs) (m : M s c) (h : s.createMsg sg a = .ok s') : M s' c := by
+  unfold createMsg at h
+  split at h
+  · cases h
+  · split at h
+    · cases h
+    · split at h
+      · cases h
+      · split at h
+        · cases h
+        · rename_i hown
+          split at h
+          · cases h
+          · rename_i key hkey
+            split at h
+            · cases h
+            · rename_i hpk
+              split at h
+              · cases h
+              · rename_i hclash
+                split at h
+                · cases h
+                · split at h
+                  · cases h
+                  · injection h with h
+                    obtain ⟨B, S, e⟩ := ubp_eq _ _ h
+                    have hnone : s.getVal a.op = none := by
+                      cases hg : s.getVal a.op with
+                      | none => rfl
+                      | some v => simp [hg] at hown
+                    have hkeyfree : ∀ v ∈ s.vals, v.key ≠ key := by
+                      intro v hv ek
+                      have := m.cons v hv
+                      rw [ek] at this
+                      simp [this] at hpk
+                    have hcl := pendingClash_none' a.op key s.pending hclash
+                    apply M_pending s s' c m _ B S e
+                    refine ⟨?_, ?_, ?_⟩
+                    · rw [List.map_append, List.nodup_append]
+                      refine ⟨m.pend.ops, by simp, ?_⟩
+                      intro x hx y hy
+                      simp at hy; subst hy
+                      obtain ⟨q, hq, hqo⟩ := List.mem_map.mp hx
+                      intro e2; exact (hcl q hq).1 (by rw [hqo, e2])
+                    · rw [List.map_append, List.nodup_append]
+                      refine ⟨m.pend.keys, by simp, ?_⟩
+                      intro x hx y hy
+                      simp at hy; subst hy
+                      obtain ⟨q, hq, hqo⟩ := List.mem_map.mp hx
+                      intro e2; exact (hcl q hq).2 (by rw [hqo, e2])
+                    · intro q hq
+                      rcases List.mem_append.mp hq with hq | hq
+                      · exact m.pend.fresh q hq
+                      · simp only [List.mem_singleton] at hq
+                        subst hq
+                        exact ⟨hnone, hkeyfree, rfl⟩
+
+/-- **a successful RemovePending preserves `M`** -/
+theorem M_rmPending (s s' : App) (c : CSet) (sg : Signer) (t : Option Nat) (m : M s c) (h : s.rmPendingMsg sg t = .ok s') : M s' c := by
+  unfold rmPendingMsg at h
+  split at h
+  · cases h
+  · split at h
+    · injection h with h
+      exact M_pending s s' c m s.pending s.bonded s.supply h.symm ⟨m.pend.ops, m.pend.keys, m.pend.fresh⟩
+    · rename_i op
+      injection h with h
+      apply M_pending s s' c m (removeFirst op s.pending) s.bonded s.supply (by rw [← h]; rfl)
+      exact ⟨m.pend.ops.sublist ((removeFirst_sublist op s.pending).map _), m.pend.keys.sublist ((removeFirst_sublist op s.pending).map _),
+        fun q hq => m.pend.fresh q (mem_removeFirst op s.pending q hq)⟩
 
 /-! ### transactions, blocks, histories of power adjustments -/
 
@@ -966,13 +1401,41 @@ theorem M_setPower (s s' : App) (c : CSet) (op p : Nat) (u : Bool) (m : M s c)
     D1 (it owns no index entry at the new power) -/
 def QuietTx (s : App) (incs : List (Signer × Nat)) (tx : Tx) : Prop :=
   (runTx genEnv s incs tx).2.1 = s ∨
-  ∃ op p u, tx.signer = .admin ∧ tx.msgs = [.setPower (some op) p u] ∧
-    ((runTx genEnv s incs tx).1 = .ok → op ∉ s.updated ∧ (p / PR, op) ∉ s.index)
+  (∃ op p u, tx.signer = .admin ∧ tx.msgs = [.setPower (some op) p u] ∧
+    ((runTx genEnv s incs tx).1 = .ok → s.pendingFind op = none → op ∉ s.updated ∧ (p / PR, op) ∉ s.index)) ∨
+  (∃ a, tx.msgs = [.create a]) ∨ (∃ t, tx.msgs = [.rmPending t])
 
 theorem runTx_M (s : App) (c : CSet) (incs : List (Signer × Nat)) (tx : Tx) (m : M s c) (q : QuietTx s incs tx) :
     M (runTx genEnv s incs tx).2.1 c := by
-  rcases q with hsame | ⟨op, p, u, hsg, hmsgs, hq⟩
+  rcases q with hsame | ⟨op, p, u, hsg, hmsgs, hq⟩ | ⟨a, hmsgs⟩ | ⟨tg, hmsgs⟩
   · rw [hsame]; exact m
+  rotate_left
+  · -- CreateValidator
+    unfold runTx
+    split
+    · exact m
+    · cases ha : Ante.run genEnv.ante genEnv.limiter s.height tx.msgs with
+      | some e => simp only; exact m
+      | none =>
+        simp only
+        rw [hmsgs]
+        simp only [handleList, handle]
+        cases hr : s.createMsg tx.signer a with
+        | error e => simp only [liftE]; exact m
+        | ok s' => simp only [liftE]; exact M_create s s' c tx.signer a m hr
+  · -- RemovePending
+    unfold runTx
+    split
+    · exact m
+    · cases ha : Ante.run genEnv.ante genEnv.limiter s.height tx.msgs with
+      | some e => simp only; exact m
+      | none =>
+        simp only
+        rw [hmsgs]
+        simp only [handleList, handle]
+        cases hr : s.rmPendingMsg tx.signer tg with
+        | error e => simp only [liftE]; exact m
+        | ok s' => simp only [liftE]; exact M_rmPending s s' c tx.signer tg m hr
   unfold runTx at hq ⊢
   split
   · exact m
@@ -989,8 +1452,7 @@ theorem runTx_M (s : App) (c : CSet) (incs : List (Signer × Nat)) (tx : Tx) (m 
       | error e => simp only [liftE]; exact m
       | ok s' =>
         simp only [hr, liftE] at hq ⊢
-        obtain ⟨h3, h1⟩ := hq trivial
-        exact M_setPower s s' c op p u m hr h3 h1
+        exact M_setPower s s' c op p u m hr (hq trivial)
 
 def QuietTxs : List Tx → App → List (Signer × Nat) → Prop
   | [], _, _ => True
@@ -1290,7 +1752,11 @@ theorem genesis_G (g : Genesis) (hw : g.wf = true) :
           have := mem_of_getVal _ _ _ (inv.recs x (by rw [hv]; simp))
           rw [e] at this; cases this)
       ubq := inv.ubq
-      pending := inv2.pending
+      pend := (by
+        have hp0 : (genesisState g).pending = [] := inv2.pending
+        exact ⟨by show ((genesisState g).pending.map (·.op)).Nodup; rw [hp0]; simp,
+               by show ((genesisState g).pending.map (·.key)).Nodup; rw [hp0]; simp,
+               by intro q hq; have : q ∈ (genesisState g).pending := hq; rw [hp0] at this; cases this⟩)
       last := (by intro op v hv; rw [hgetE] at hv; exact hlast op v hv)
       lastOnly := (by
         intro op p hl
@@ -1299,7 +1765,6 @@ theorem genesis_G (g : Genesis) (hw : g.wf = true) :
         rw [hgetE, hv']; rfl)
       lastSorted := hLs
       cometCur := (fun v hv _ => hallCur v hv)
-      cometHas := (fun v hv => by rw [hallCur v hv]; simp)
       cometKnown := (by
         intro k p hkp
         obtain ⟨v, hv, _, _, hk, _⟩ := (hag k p).mp hkp
@@ -1348,6 +1813,11 @@ theorem genesis_G (g : Genesis) (hw : g.wf = true) :
         rw [hgetE, e]; exact inv.recs x hx)
       updSorted := (by show (genesisState g).updated.Pairwise (· < ·); rw [inv2.updated]; exact List.Pairwise.nil)
       updCur := (by intro op hop; have : op ∈ (genesisState g).updated := hop; rw [inv2.updated] at this; cases this)
+      winOk := (by
+        show 0 ≤ (genesisState g).window - (genesisState g).minSigned
+        rw [inv2.win.1, inv2.win.2]
+        have := hwf.1.1.1.1.1.1.2
+        omega)
       allCur := hallCur
       totalOk := ⟨hT0, hT1⟩ }
 
@@ -1386,12 +1856,17 @@ theorem quietTx_of_B (s : App) (incs : List (Signer × Nat)) (tx : Tx) (h : quie
   right
   split at h
   · rename_i op p u hs hm
+    left
     refine ⟨op, p, u, hs, hm, ?_⟩
-    intro hok
-    simp only [hok, bne_self_eq_false, Bool.false_or, Bool.and_eq_true, Bool.not_eq_true'] at h
+    intro hok hnone
+    simp only [hok, bne_self_eq_false, hnone, Option.isSome_none, Bool.false_or, Bool.and_eq_true, Bool.not_eq_true'] at h
     constructor
     · intro hm2; have := h.1; simp [hm2] at this
     · intro hm2; have := h.2; simp [hm2] at this
+  · rename_i a hm
+    right; left; exact ⟨a, hm⟩
+  · rename_i tg hm
+    right; right; exact ⟨tg, hm⟩
   · cases h
 
 theorem quietTxs_of_B : ∀ (txs : List Tx) (s : App) (incs : List (Signer × Nat)), quietTxsB txs s incs = true → QuietTxs txs s incs
